@@ -427,3 +427,64 @@ func C17ShutdownWhileTableBusy() {
 	}
 	sym.Reach("busy-table-done")
 }
+
+// C17ReentrantCloser: the close callback of a handler calls back into the end point (a session that, when
+// it ends, removes a handler depending on it, or registers a replacement): whichever way the handler
+// ends, the call that ended it returns, both callbacks run exactly once, both queues get closed, and the
+// table keeps working afterwards (when the end point itself is still open).
+func C17ReentrantCloser() {
+	s := newZZStream()
+	e := NewEndPoint(s)
+	qSession, qDep, qNew := make(chan *Message, 2), make(chan *Message, 2), make(chan *Message, 2)
+	var sessionClosed, depClosed, newClosed int32
+	how := sym.Choose("how-the-handler-ends", 4)
+	action := sym.Choose("what-the-close-callback-does", 3)
+	depID := e.MakeHandler(func(hdr *Header) (bool, bool) { return hdr.Service == 7, true }, qDep, func(err error) { atomic.AddInt32(&depClosed, 1) })
+	var removeDepErr error
+	id := e.MakeHandler(func(hdr *Header) (bool, bool) { return hdr.Service == 1, how != 3 }, qSession, func(err error) {
+		atomic.AddInt32(&sessionClosed, 1)
+		switch action {
+		case 0:
+			removeDepErr = e.RemoveHandler(depID)
+		case 1:
+			e.MakeHandler(func(hdr *Header) (bool, bool) { return hdr.Service == 9, true }, qNew, func(err error) { atomic.AddInt32(&newClosed, 1) })
+		}
+	})
+	switch how {
+	case 0:
+		sym.Assert(e.RemoveHandler(id) == nil, "reentrant/remove-ok")
+	case 1:
+		e.Close()
+	case 2:
+		s.peerClose()
+	default:
+		s.inject(NewMessage(NewHeader(Reply, 1, 1, 1, 1), nil))
+	}
+	sym.Quiesce()
+	sym.Assert(atomic.LoadInt32(&sessionClosed) == 1, "reentrant/close-callback-once")
+	if how == 0 || how == 3 {
+		// the end point is still open
+		if action == 0 {
+			sym.Assert(removeDepErr == nil, "reentrant/dependent-removed")
+			sym.Assert(atomic.LoadInt32(&depClosed) == 1, "reentrant/dependent-callback-once")
+		}
+		// the table still works: a fresh handler gets the next message
+		q := make(chan *Message, 1)
+		e.MakeHandler(func(hdr *Header) (bool, bool) { return hdr.Service == 5, true }, q, nil)
+		s.inject(NewMessage(NewHeader(Call, 5, 1, 1, 42), nil))
+		sym.Quiesce()
+		select {
+		case m := <-q:
+			sym.Assert(m.Header.ID == 42, "reentrant/table-works-afterwards")
+		default:
+			sym.Fail("reentrant/table-dead-afterwards")
+		}
+		e.Close()
+		sym.Quiesce()
+	}
+	sym.Assert(atomic.LoadInt32(&depClosed) == 1, "reentrant/dependent-closed-by-the-end")
+	if action == 1 {
+		sym.Assert(atomic.LoadInt32(&newClosed) <= 1, "reentrant/replacement-callback-at-most-once")
+	}
+	sym.Reach("reentrant-done")
+}
